@@ -3,6 +3,7 @@ import os, sys
 import vlib
 import fontbuild
 import _pipeline as P
+import _dienv
 
 sys.path.insert(0, os.path.join(vlib.ROOT, "tools", "gens"))
 
@@ -433,12 +434,17 @@ def run(ctx):
     P.correspond(ctx, "di-shape", shape_corr_lines(r, chars, [c for c in pick if chars.in_scope(c)],
                                                       ctx.budget(700, 50000)), classify=classify_shape)
 
+    ctx.correspond("trak-position-complex",
+                   lines=_dienv.position_complex_lines(shim, ctx.rng("poscx"), ctx.budget(6, 60), ctx.budget(25, 120)),
+                   classify=_dienv.classify_poscx)
+
     r = ctx.rng("invisible")
     if ctx.quick:
         di_pick = sorted(set(ends) | set(di_all[::8]))
     else:
         di_pick = di_all
     invisibility_search(ctx, shim, chars, di_all, di_pick, r)
+    _dienv.search(ctx, shim, chars, di_all, ctx.rng("invisible-env"))
     chars.load([0x2000 + i for i in range(11)] + [0x202F, 0x205F, 0x3000, 0xA0, 0x2011, 0xE9])
     fallback_interference_search(ctx, shim, chars, di_all, ctx.rng("fallback"))
 
@@ -446,6 +452,8 @@ def run(ctx):
 def replay(ctx, rp):
     shim = vlib.build_harness()
     st = rp.get("stream")
+    if st == "di-invisible-env":
+        return _dienv.replay(shim, rp)
     if st in ("di-set", "di-gen") and "request" not in rp:
         model = vlib.build_model()
         c = rp["codepoint"]
